@@ -650,3 +650,47 @@ def x_combine(p):
     return {"fn": "combine", "id": f"va={p['va']} vb={p['vb']} a={p['a']} b={p['b']}", "va": p["va"], "vb": p["vb"],
             "aknown": p["a"] is not None, "bknown": p["b"] is not None, "a": log(p["a"]), "b": log(p["b"]),
             "out": outcome_class(exc), "isnone": isnone, "res": res}
+
+
+# ----------------------------------------------------------------------------- C02 on raw floats
+@executor("rawlimit")
+def x_rawlimit(p):
+    """Decimal limits and volumes (tenths of a microlitre): whatever the limit checks decide for values that land on a limit
+    "in decimal terms", the float that ends up stored must not lie beyond the float limit in the direction of the change.
+    The comparison is the literal one of the property and is made here on the raw floats (the exact-grid abstraction of the
+    other checks cannot see one unit in the last place)."""
+    from decimal import Decimal
+
+    rt = robotools()
+    d = lambda k: float(Decimal(k) / Decimal(10))
+    mn, mx = d(p["min"]), d(p["max"])
+    init = [d(k) for k in p["init"]]
+    n = len(init)
+    steps = []
+    viol_up = viol_down = False
+    try:
+        lw = rt.Labware("L", 1, n, min_volume=mn, max_volume=mx, initial_volumes=init) if p["kind"] == "plate" else \
+            rt.Trough("L", 4, n, min_volume=mn, max_volume=mx, initial_volumes=init)
+        wl = rt.EvoWorklist(max_volume=10**6) if p.get("via") == "worklist" else None
+        for st in p["steps"]:
+            before = np.array(lw.volumes, copy=True)
+            well = wid(0, st["col"])
+            x = d(st["amount"])
+            exc = None
+            try:
+                if st["op"] == "add":
+                    wl.dispense(lw, well, x) if wl is not None else lw.add(well, x)
+                else:
+                    wl.aspirate(lw, well, x) if wl is not None else lw.remove(well, x)
+            except Exception as e:  # noqa
+                exc = e
+            after = np.array(lw.volumes)
+            up = bool(np.any((after > before) & (after > mx)))
+            down = bool(np.any((after < before) & (after < mn)))
+            viol_up, viol_down = viol_up or up, viol_down or down
+            steps.append({"out": outcome_class(exc), "up": up, "down": down})
+        out = "ok"
+    except Exception as e:  # noqa
+        out = outcome_class(e)
+    return {"fn": "rawlimit", "id": f"{p['kind']} min={p['min']} max={p['max']} init={p['init']} steps={[(s['op'], s['col'], s['amount']) for s in p['steps']]}",
+            "out": out, "nsteps": len(p["steps"]), "steps": steps, "above": viol_up, "below": viol_down}
